@@ -7,7 +7,7 @@ environment: FAKE_COP_DIR  state directory containing script.json = {"step":...,
 steps : before_ready | after_ready | req (before reading the k-th request) | reply (instead of the k-th reply) |
         midreply (after the first half of the k-th reply)
 faults: exit0 exit1 kill9 close_stdin close_stdout close_both hang_exit          (process / descriptor faults)
-        truncated oversized wrong_type garbage bad_version str_wrap arr_huge deep_nest err_long   (message faults)
+        truncated oversized wrong_type garbage bad_version str_wrap arr_huge deep_nest err_long err_20k err_300k   (message faults)
 Every pid this program creates is appended to FAKE_COP_DIR/pids so the harness can check for survivors by pid."""
 import os, sys, json, struct, signal, subprocess, time
 
@@ -121,6 +121,9 @@ def main():
             wr(struct.pack('<BBHI', 1, 0x10, 0, len(pl)) + pl)
         elif fault == 'err_long':
             wr(struct.pack('<BBHI', 1, 0x11, 0, 1000) + b'E' * 1000)
+        elif fault in ('err_20k', 'err_300k'):
+            n = 20000 if fault == 'err_20k' else 300000
+            wr(struct.pack('<BBHI', 1, 0x11, 0, n) + b'E' * n)
         else:
             raise SystemExit('unknown fault ' + fault)
         return True
